@@ -22,7 +22,7 @@ From Coq Require Import String ZArith List Bool.
 From V Require Import Base.Int Base.IO Spec.Gregorian Gen.DateTimeConsts Gen.TsConsts Gen.TimeDelta.
 From V Require Model.Date Model.Time.
 From V Require Judge.C02.
-From V Require Import Model.DateTime Model.C02 Proofs.C02 Proofs.C02Holds Proofs.C02Date.
+From V Require Import Model.DateTime Model.C02 Proofs.C02 Proofs.C02Holds Proofs.C02Date Proofs.C02All.
 Import ListNotations.
 Open Scope Z_scope.
 
@@ -290,6 +290,77 @@ Theorem C02_holds_of :
   Judge.C02.judge B"ts.of" [enc_ndt a] (run B"ts.of" [enc_ndt a]) = JOk.
 Proof. exact u_holds_of. Qed.
 Print Assumptions C02_holds_of.
+
+(** * The constants (op ts.consts): DateTime::<Utc>::UNIX_EPOCH / NaiveDateTime::UNIX_EPOCH is
+      1970-01-01T00:00:00 (the date the checked constructor returns for (1970, 1, 1), time 00:00:00), the
+      instant 0 with timestamp 0; MIN_UTC / NaiveDateTime::MIN and MAX_UTC / NaiveDateTime::MAX are valid
+      non-leap values whose instants are exactly the first and last nanosecond of the supported years
+      (NS_MIN / NS_MAX of Spec/Gregorian.v), with timestamps SEC_MIN / SEC_MAX ... *)
+Theorem C02_consts :
+  Date.from_ymd_opt 1970 1 1 = Val (Some D_EPOCH) /\
+  (valid_ndt NDT_EPOCH /\ nonleap NDT_EPOCH /\ instant NDT_EPOCH = 0 /\ dt_timestamp NDT_EPOCH = Val 0) /\
+  (valid_ndt NDT_MIN /\ nonleap NDT_MIN /\ instant NDT_MIN = NS_MIN /\ dt_timestamp NDT_MIN = Val SEC_MIN) /\
+  (valid_ndt NDT_MAX /\ nonleap NDT_MAX /\ instant NDT_MAX = NS_MAX /\ dt_timestamp NDT_MAX = Val SEC_MAX).
+Proof. exact consts_spec. Qed.
+Print Assumptions C02_consts.
+(* ... and they are the extreme values: every valid date-time lies between them (second counts for every
+   value; instants for the non-leap ones - the leap-second readings of the last second are the only values
+   the derived order puts after MAX) *)
+Theorem C02_consts_extreme : forall a, valid_ndt a ->
+  secs_of NDT_MIN <= secs_of a <= secs_of NDT_MAX /\
+  (nonleap a -> instant NDT_MIN <= instant a <= instant NDT_MAX).
+Proof. exact consts_extreme. Qed.
+Print Assumptions C02_consts_extreme.
+(* the observation the op reports: the three constants in both types (offset 0 on the DateTime<Utc> ones)
+   and the timestamps of the epoch and of the two ends *)
+Theorem C02_consts_observation :
+  ts_consts = Val (VTup [enc_dtz (mk_dtz NDT_EPOCH 0); VInt 0; enc_ndt NDT_EPOCH;
+                         enc_dtz (mk_dtz NDT_MIN 0); enc_dtz (mk_dtz NDT_MAX 0);
+                         enc_ndt NDT_MIN; enc_ndt NDT_MAX; VInt SEC_MIN; VInt SEC_MAX]).
+Proof. exact ts_consts_val. Qed.
+Print Assumptions C02_consts_observation.
+
+(** * The accessor observation of op ts.of / ts.naive_of, as a value: on a non-leap value all seven readings
+      are functions of the instant; on a leap-second value (any second) nothing panics and the documented
+      pair (timestamp, subsec_nanos) and the sub-second quotients are as stated *)
+Theorem C02_accessors_observation : forall a, valid_ndt a -> nonleap a ->
+  ts_acc a = Val (VTup [VInt (instant a / G); VInt (instant a / 1000000); VInt (instant a / 1000);
+     val_of_option VInt (if in_i64 (instant a) then Some (instant a) else None);
+     VInt (dfrac a / 1000000); VInt (dfrac a / 1000); VInt (dfrac a)]).
+Proof. exact ts_acc_nonleap. Qed.
+Print Assumptions C02_accessors_observation.
+Theorem C02_accessors_observation_leap : forall a, valid_ndt a -> exists x1 x2 x3,
+  ts_acc a = Val (VTup [VInt (secs_of a); x1; x2; x3;
+                        VInt (dfrac a / 1000000); VInt (dfrac a / 1000); VInt (dfrac a)]).
+Proof. exact ts_acc_any. Qed.
+Print Assumptions C02_accessors_observation_leap.
+(* timestamp_nanos_opt never panics, whatever the value (the leap-second gap of the observation above
+   yields None, not a panic) *)
+Theorem C02_timestamp_nanos_opt_total : forall a, valid_ndt a -> exists r, dt_timestamp_nanos_opt a = Val r.
+Proof. exact nanos_opt_total. Qed.
+Print Assumptions C02_timestamp_nanos_opt_total.
+
+(** * C02_holds: on EVERY case line - all 27 ops of the dispatcher (constructors in the four reporting
+      styles Option / panic / MappedLocalTime / DateTime<Tz>, accessors incl. leap-second values, the round
+      trips in both directions, the deprecated NaiveDateTime wrappers, both SystemTime conversions, the
+      constants), arbitrary argument lists - whenever the judge of Judge/C02.v has an opinion (the case is
+      in the property's domain) it accepts the model's output.  Supersedes the per-op forms
+      C02_holds_from .. C02_holds_of above (kept under their names). *)
+Theorem C02_holds : forall op args,
+  Judge.C02.judge op args (run op args) <> JSkip -> Judge.C02.judge op args (run op args) = JOk.
+Proof. exact Proofs.C02All.C02_holds. Qed.
+Print Assumptions C02_holds.
+Example C02_holds_inhabited :
+  Judge.C02.judge B"ts.tz" [VInt 3600; VInt 1431648000; VInt 0] (run B"ts.tz" [VInt 3600; VInt 1431648000; VInt 0]) = JOk /\
+  Judge.C02.judge B"ts.back" [VTup [VInt 2015; VInt 135; VInt 59; VInt 1500000000]]
+     (run B"ts.back" [VTup [VInt 2015; VInt 135; VInt 59; VInt 1500000000]]) = JOk /\
+  Judge.C02.judge B"ts.systime" [VInt 1; VInt 5; VInt 1] (run B"ts.systime" [VInt 1; VInt 5; VInt 1]) = JOk /\
+  Judge.C02.judge B"ts.tosys" [VTup [VInt 1969; VInt 365; VInt 86399; VInt 5; VInt (-3600)]]
+     (run B"ts.tosys" [VTup [VInt 1969; VInt 365; VInt 86399; VInt 5; VInt (-3600)]]) = JOk /\
+  Judge.C02.judge B"ts.naive_ofns" [VTup [VInt 262142; VInt 365; VInt 86399; VInt 999999999]]
+     (run B"ts.naive_ofns" [VTup [VInt 262142; VInt 365; VInt 86399; VInt 999999999]]) = JOk.
+Proof. exact holds_examples. Qed.
+Print Assumptions C02_holds_inhabited.
 
 (** * The hypotheses are inhabited by a non-trivial value (computed, independent of the calendar library) *)
 Example C02_example_2015 : exists a, dt_from_timestamp 1431648000 0 = Val (Some a) /\
